@@ -912,6 +912,8 @@ class Terms:
             return args[0]
         if nm == "std::ops::Try::branch" and args:
             return ("trybranch", args[0])
+        if nm in ("std::ops::Index::index", "std::ops::IndexMut::index_mut") and len(args) == 2 and args[1][0] == "agg" and args[1][1].endswith("RangeFull"):
+            return args[0]  # xs[..] is xs
         if nm == "std::option::Option::take_if" and len(args) == 2:
             # the value handed back is `opt.filter(pred)` of the value before the call
             return ("call", "std::option::Option::filter", args, ("meta", "std::option::Option::filter", None))
